@@ -372,10 +372,13 @@ ADitNext(e) ==
                THEN [end |-> FALSE, term |-> r.entries[r.idx + 1].term, count |-> r.entries[r.idx + 1].count]
                ELSE [end |-> TRUE, term |-> <<>>, count |-> -1]
         val == [end |-> e.res.end, term |-> e.res.term, count |-> e.res.count]
+        \* the entries OTHER live iterators returned last still read the same (the harness re-reads them after this call)
+        othersBad == "others_changed" \in DOMAIN e.res
         props == {"C08", "C13"} \cup KindProp(r.seg)
     IN /\ e.r \in DOMAIN dvrs
        /\ dvrs' = [dvrs EXCEPT ![e.r].idx = IF @ < Len(r.entries) THEN @ + 1 ELSE @]
-       /\ obs' = Obs("dit_next", props, Judge(r.seg, props, e.res.kind, val, exp, [end |-> TRUE, term |-> <<>>, count |-> -1]), exp, e.res)
+       /\ obs' = Obs("dit_next", props, Judge(r.seg, props, e.res.kind, val, exp, [end |-> TRUE, term |-> <<>>, count |-> -1])
+                                        \cup (IF othersBad THEN {"C08", "C13"} \cup GProp(e) ELSE {}), exp, e.res)
        /\ UNCHANGED <<segs, files, pls, its, bms, built, digs>>
 
 \* DictionaryIterator.Close(): succeeds; the handle is gone, every other iterator (also the ones that were given the
